@@ -38,7 +38,7 @@ MODS = list(range(1, 17)) + [24, 32, 64]
 def plan_queries(rng, t, tier):
     """Choose, per node, divisors and whether to expand - under the cost guard."""
     budget = 2e5 if tier == "quick" else 1e6
-    divs = sorted(set([8, 32] + [rng.choice(MODS) for _ in range(3)]))
+    divs = sorted(set([8, 32, 64] + [rng.choice(MODS) for _ in range(3)]))
     plan = []
     spent = [0, 0]
     for n in tygen.subtypes(t):
@@ -105,6 +105,14 @@ def targeted(rng, tier):
         out.append({"k": "union", "name": names.fresh(), "ver": [1, 0],
                     "fs": [["v%d" % i, u8 if i % 2 else {"k": "prim", "p": "uint", "w": 1 + i % 17, "c": "sat"}] for i in range(nv)]})
     out.append({"k": "union", "name": names.fresh(), "ver": [1, 0], "fs": [["only", u8]]})  # rejected: one variant
+    # variants / fields whose length sets agree in min, max and residues modulo 32 but differ as sets
+    def arr(w, n):
+        return {"k": "var", "e": {"k": "prim", "p": "uint", "w": w, "c": "sat"}, "n": n}
+    for a, b in [(arr(64, 1), arr(32, 2)), (arr(32, 2), arr(64, 1)), (arr(32, 4), arr(64, 2)), (arr(64, 3), arr(32, 6))]:
+        un = {"k": "union", "name": names.fresh(), "ver": [1, 0], "fs": [["a", a], ["b", b]]}
+        out.append(un)
+        out.append({"k": "struct", "name": names.fresh(), "ver": [1, 0], "fs": [["x", {"k": "prim", "p": "bool"}], ["u", dict(un, name=names.fresh())], ["y", a]]})
+        out.append({"k": "fix", "e": dict(un, name=names.fresh()), "n": 2})
     # extents at and around the minimum
     for fields in ([["a", u8]], [["a", {"k": "var", "e": u8, "n": 5}], ["b", {"k": "prim", "p": "bool"}]], []):
         base = {"k": "struct", "name": names.fresh(), "ver": [1, 0], "fs": fields}
